@@ -196,6 +196,22 @@ def p_buildProtocol(s, peering, addr):
     s.dont_care(fsm, 'protocol')
     s.dont_care(peering, 'estab_protocol')
     set_state(s, fsm, ST_CONNECT)
+
+    def fresh_counters():
+        # C18: statistics are per connection — the new instance owns zeroed counter tables (not the class's, not the
+        # previous connection's)
+        newp = fsm.f.get('protocol')
+        if isinstance(newp, Any):
+            return z3.BoolVal(True)        # applied as a contract: the new instance is unconstrained
+        if not isinstance(newp, Obj):
+            return z3.BoolVal(False)
+        ok = True
+        for k in ('msg_sent_stat', 'msg_recv_stat'):
+            d = newp.f.get(k)
+            ok = ok and isinstance(d, dict) and all((isinstance(v, int) and v == 0) for v in d.values()) and \
+                set(d) == {'Opens', 'Notifications', 'Updates', 'Keepalives', 'RouteRefresh'}
+        return z3.BoolVal(bool(ok))
+    s.post.append(('C18-fresh-counters', fresh_counters))
     return ANY
 
 
